@@ -21,7 +21,7 @@ RULE = ('programs of 1-3 base tables (plain tuples, or Row / namedtuple objects 
         'name list / StructType / DDL string, local or RDD; 0-4 rows over columns k,v,w,x,..., ints and None, incl. duplicate column '
         'names) followed by op chains of length <= 4 drawn from 17 operation kinds with parameters taken from '
         'the live column list (plus some absent/ambiguous names); exhaustive part: every chain of length <= 2 over '
-        'a menu of 99 concrete operations (14 of them refer to a column in another letter case than the schema) on two fixed tables (thorough tier: all, quick tier: all of length 1 '
+        'a menu of 114 concrete operations (14 of them refer to a column in another letter case than the schema) on two fixed tables (thorough tier: all, quick tier: all of length 1 '
         'and a seed-dependent sample of length 2); every DataFrame of every program is observed; non-trivial = at '
         'least one operation step executed without error; distinct by canonical JSON of the program')
 ASSUMPTIONS = [
@@ -43,10 +43,10 @@ TRUSTED = ['translator/kernels/c15.py (join field-group tables, pivot / expressi
 # ----------------------------------------------------------------------------------------------
 # instruction encoding (mirrors coq/Run/C15_run.v)
 CREATE, RANGE, SELECT, WITHCOL, DROP, RENAME, TODF, JOIN, CROSS, UNION, UNIONBN, AGG, SORT, LIMIT, DISTINCT, SAMPLE, \
-    REPART, CREATEROWS, CREATESTRICT = range(19)
+    REPART, CREATEROWS, CREATESTRICT, DROPDUP = range(20)
 OPNAMES = ['createDataFrame', 'range', 'select', 'withColumn', 'drop', 'withColumnRenamed', 'toDF', 'join',
            'crossJoin', 'union', 'unionByName', 'agg', 'sort', 'limit', 'distinct', 'sample', 'repartition',
-           'createDataFrame(rows)', 'createDataFrame(strict)']
+           'createDataFrame(rows)', 'createDataFrame(strict)', 'dropDuplicates']
 HOWS = ['inner', 'left', 'right', 'full', 'leftsemi', 'leftanti']
 AGGFNS = ['count', 'sum', 'min', 'max']
 
@@ -228,6 +228,8 @@ def exec_step(ins, dfs, spark, mods):
         return df.limit(ins[2])
     if op == DISTINCT:
         return df.distinct()
+    if op == DROPDUP:
+        return df.dropDuplicates(list(ins[2]) if ins[2] or ins[1] % 2 else None)
     if op == SAMPLE:
         _, s, wr, a, m = ins
         if m == 0 and not wr and a in (0, 1):
@@ -268,6 +270,8 @@ def flags(ins, fl):
         return (o, v) if v else None
     if op == DISTINCT:
         return (False, v) if v else None
+    if op == DROPDUP:
+        return (False, o or not ins[2]) if v else None
     if op == SAMPLE:
         return (o, v) if v else None
     if op == REPART:
@@ -334,7 +338,7 @@ def reference_schema(ins, df, dfs, spark, mods):
         cols = [f.name for f in df._jdf.bound_schema.fields]
         ref = spark.createDataFrame([], StructType([StructField(n, LongType(), True) for n in cols]))
         return ref.schema
-    if op in (SORT, LIMIT, DISTINCT, SAMPLE, REPART, UNION, UNIONBN):
+    if op in (SORT, LIMIT, DISTINCT, DROPDUP, SAMPLE, REPART, UNION, UNIONBN):
         return dfs[ins[1]].schema
     return None
 
@@ -350,7 +354,7 @@ def impl(case):
     mods = _imports()
     Context, SparkSession = mods[0], mods[1]
     spark = SparkSession(Context())
-    dfs, fl, obs = [], [], []
+    dfs, fl, obs, likes = [], [], [], []
     status = None
     for ins in case:
         f = flags(ins, fl)
@@ -359,7 +363,8 @@ def impl(case):
             break
         try:
             df = exec_step(ins, dfs, spark, mods)
-            o = observe(df, *f, like=reference_schema(ins, df, dfs, spark, mods))
+            like = reference_schema(ins, df, dfs, spark, mods)
+            o = observe(df, *f, like=like)
         except RecursionError:
             status = Err('RecursionError')
             break
@@ -369,6 +374,16 @@ def impl(case):
         dfs.append(df)
         fl.append(f)
         obs.append(o)
+        likes.append(like)
+    # aliasing: building and evaluating the LATER frames (children, siblings) must not have changed what
+    # an earlier frame shows -- every frame is observed a second time at the end of the program
+    for i, df in enumerate(dfs):
+        try:
+            again = observe(df, *fl[i], like=likes[i])
+        except Exception as e:  # pylint: disable=broad-except
+            again = ('raised', type(e).__name__)
+        if again != obs[i]:
+            obs[i] = obs[i][:4] + (f'changed after later steps: first {obs[i][:4]!r} then {again[:4]!r}'[:600],)
     key = 'no exception' if status is None else f'{OPNAMES[case[len(obs)][0]]}:{status.name}'
     STATUS[key] = STATUS.get(key, 0) + 1
     return (obs, status)
@@ -403,6 +418,8 @@ def oracle(case, result):
                 return (f'{site}:row-arity', f'step {i}: a Row has {n} values for {len(cols)} columns {cols}')
         if cnt != len(rows):
             return (f'{site}:count-vs-collect', f'step {i}: count() = {cnt}, collect() has {len(rows)} rows')
+        if isinstance(same, str):
+            return (f'{site}:changed-by-later-operation', f'step {i}: the DataFrame {same}')
         if not same:
             return (f'{site}:rdd-vs-collect', f'step {i}: df.rdd.collect() or a second collect() differs from '
                     'the first collect() of the same DataFrame')
@@ -503,8 +520,17 @@ def menu(s, others):
     m.append((REPART, s, 2, [K]))
     for n, e in (('n', lit(1)), ('v', add(k, lit(1))), ('k', v), ('s', add(k, v))):
         m.append((WITHCOL, s, n, e))
-    for cols in (['v'], ['k'], ['k', 'v'], ['*']):
+    for cols in (['v'], ['k'], ['k', 'v'], ['*'], ['k', 'k'], ['v', 'v'], ['k', 'v', 'k'], ['v', 'k', 'v', 'v']):
         m.append((DROP, s, cols))
+    # the same name more than once in other multi-name arguments
+    m.append((SORT, s, [(k, True), (k, False)]))
+    m.append((JOIN, s, others[0], 0, ['k', 'k']))
+    m.append((JOIN, s, others[0], 3, ['k', 'v', 'k']))
+    m.append((TODF, s, ['k', 'k']))
+    m.append((RENAME, s, 'v', 'k'))
+    m.append((REPART, s, 2, [k, k]))
+    for cols in ([], ['k'], ['k', 'k'], ['v', 'k', 'v'], ['K']):
+        m.append((DROPDUP, s, cols))
     for o, n in (('k', 'v'), ('v', 'w'), ('zz', 'y'), ('k', 'k')):
         m.append((RENAME, s, o, n))
     for names in (['a', 'b'], ['a'], ['a', 'b', 'c'], ['a', 'a']):
@@ -541,7 +567,10 @@ def menu(s, others):
     m.append((AGG, s, [k], ('v', None), [sumv], 0))
     m.append((AGG, s, [k], ('v', ['x', 'y']), [(1, v, 's')], 0))
     m.append((AGG, s, [k], ('v', [10, 20]), [sumv], 0))                 # int pivot values, one aggregate
-    m.append((AGG, s, [k], ('v', [20, 5, 20]), [(0, None, 'count')], 0))   # ... aliased, a value listed twice
+    if s == 0:
+        # ... aliased, a value listed twice (only on a single-partition base table: GroupedStats.mergeStats
+        # merges a repeated pivot value once per occurrence, so the counts depend on the partitioning)
+        m.append((AGG, s, [k], ('v', [20, 5, 20]), [(0, None, 'count')], 0))
     m.append((AGG, s, [], ('k', None), [(3, v, None)], 0))
     m.append((AGG, s, [k], ('v', [10, 99]), [(0, None, None), (3, v, 'm')], 0))
     m.append((AGG, s, [], ('k', [2, 'z']), [sumv, (2, k, None)], 0))
@@ -555,6 +584,25 @@ def menu(s, others):
     for n, cols in ((2, []), (3, [k]), (1, [])):
         m.append((REPART, s, n, cols))
     return m
+
+
+def aliasing_family():
+    """parent (every kind of operation whose result holds materialised Row objects, and the lazy ones for
+    comparison) -> child -> sibling of the child -> second child; impl() looks at every frame again at
+    the end, so a child that changes its parent's or a sibling's rows / fields is seen."""
+    k, v = col('k'), col('v')
+    parents = [(AGG, 0, [k], None, [(1, v, None)], 0), (AGG, 0, [k], ('v', None), [(1, v, None), (0, v, None)], 0),
+               (AGG, 0, [], None, [(3, k, 'k')], 1), (SORT, 0, [(k, False)]), (LIMIT, 0, 2), (DISTINCT, 0),
+               (DROPDUP, 0, ['k']), (UNION, 0, 1), (UNIONBN, 0, 1), (REPART, 0, 2, []), (REPART, 0, 2, [k]),
+               (SAMPLE, 0, False, 1, 0), (CROSS, 0, 1), (JOIN, 0, 1, 3, ['k']), (SELECT, 0, [STAR]), (TODF, 0, ['k', 'v'])]
+    children = [(RENAME, 2, 'k', 'z'), (RENAME, 2, 'k', 'v'), (DROP, 2, ['k']), (DROP, 2, ['k', 'k']),
+                (SELECT, 2, [sx(k)]), (SELECT, 2, [STAR]), (WITHCOL, 2, 'k', lit(0)), (WITHCOL, 2, 'n', lit(0)),
+                (TODF, 2, ['a', 'b', 'c', 'd', 'e'])]
+    out = []
+    for p in parents:
+        for c in children:
+            out.append([T_A, T_B, p, c, (LIMIT, 2, 1), (RENAME, 2, 'k', 'y'), (SORT, 2, [(k, True)]), (RENAME, 4, 'k', 'x')])
+    return out
 
 
 def ok_for_model(prog):
@@ -577,6 +625,12 @@ def exhaustive(rng, tier):
     for op1 in m1:
         for op2 in menu(2, [1, 0]):
             pairs.append(base + [op1, op2])
+    cases += aliasing_family()
+    # the second operand holds the same column names in another order / twice
+    for base in ([T_A, (CREATE, True, ['v', 'k'], [[5, 2], [7, 3], [1, None]])],
+                 [T_A, (CREATE, False, ['v', 'v'], [[5, 2], [7, 3]])]):
+        for op1 in menu(0, [1]):
+            cases.append(base + [op1])
     for tr in T_ROWS:
         for op1 in menu(0, [1]):
             cases.append([tr, T_B, op1])
@@ -741,7 +795,7 @@ def rand_op(rng, s, cols, fl, n_frames):
     kinds = [SELECT] * 3 + [WITHCOL] * 2 + [DROP] * 2 + [RENAME] * 2 + [TODF, CROSS, UNION, UNIONBN, SORT, SORT,
                                                                       LIMIT, LIMIT, REPART]
     if v:
-        kinds += [JOIN] * 5 + [AGG] * 4 + [DISTINCT, SAMPLE, SAMPLE]
+        kinds += [JOIN] * 5 + [AGG] * 4 + [DISTINCT, DROPDUP, SAMPLE, SAMPLE]
     op = rng.choice(kinds)
     uniq = [c for c in cols if cols.count(c) == 1]
     if op == SELECT:
@@ -762,7 +816,11 @@ def rand_op(rng, s, cols, fl, n_frames):
         pool = uniq if rng.random() < 0.85 else cols
         if not pool:
             return (LIMIT, s, 1)
-        return (DROP, s, rng.sample(pool, min(len(pool), rng.choice([1, 1, 2]))))
+        names = rng.sample(pool, min(len(pool), rng.choice([1, 1, 2])))
+        if rng.random() < 0.3:
+            # the same name more than once, in front / in between / at the end
+            names.insert(rng.randrange(len(names) + 1), rng.choice(names))
+        return (DROP, s, names)
     if op == RENAME:
         return (RENAME, s, rand_name(rng, cols, 0.15), rng.choice(NAMES + ['y']))
     if op == TODF:
@@ -800,6 +858,8 @@ def rand_op(rng, s, cols, fl, n_frames):
                 pv = [rng.choice(['x', 'y', 'p']) for _ in range(rng.choice([1, 2]))]
             else:
                 pv = [rng.choice([0, 1, 2, 10, 'x']) for _ in range(rng.choice([0, 1, 2, 3]))]
+            if pv is not None:
+                pv = [x for i, x in enumerate(pv) if x not in pv[:i]]
             pivot = (pc, pv)
         elif not keys:
             via = rng.choice([0, 1, 2])
@@ -816,6 +876,9 @@ def rand_op(rng, s, cols, fl, n_frames):
         return (LIMIT, s, rng.choice([0, 1, 1, 2, 2, 3, 50]))
     if op == DISTINCT:
         return (DISTINCT, s)
+    if op == DROPDUP:
+        n = rng.choice([0, 1, 1, 2, 3])
+        return (DROPDUP, s, [rand_name(rng, cols, 0.07) for _ in range(n)])
     if op == SAMPLE:
         r = rng.random()
         if r < 0.25:
